@@ -193,6 +193,12 @@ def _lin_eval(e: ast.AST, env: dict) -> dict | None:
     t = norm(e)
     if t.endswith('base_media_decode_time'):
         return {'T': 1}
+    if isinstance(e, ast.Call) and norm(e.func) == 'sum' and len(e.args) == 1 \
+            and isinstance(e.args[0], (ast.GeneratorExp, ast.ListComp)):
+        g = e.args[0]
+        if len(g.generators) == 1 and not g.generators[0].ifs \
+                and norm(g.elt) == f'{norm(g.generators[0].target)}.duration':
+            return {'D': 1}
     if t in env:
         v = env[t]
         return dict(v) if v is not None else None
@@ -232,7 +238,7 @@ def _run_block(stmts: list[ast.stmt], envs: list[tuple[dict, tuple]], tracked: s
                 env = dict(env)
                 touched = {norm(x.target) for x in ast.walk(st) if isinstance(x, ast.AugAssign)} | \
                           {norm(t) for x in ast.walk(st) if isinstance(x, ast.Assign) for t in x.targets}
-                if norm(st.iter).endswith('trun.samples'):
+                if norm(st.iter).endswith('trun.samples') or norm(st.iter) in env.get('#samples', ()):
                     for x in sums:
                         tn = norm(x.target)
                         if tn in tracked:
@@ -248,7 +254,11 @@ def _run_block(stmts: list[ast.stmt], envs: list[tuple[dict, tuple]], tracked: s
                 nxt.extend(_run_block(st.body, [(dict(env), path)], tracked))
                 continue
             env = dict(env)
-            if isinstance(st, ast.Assign) and len(st.targets) == 1 and norm(st.targets[0]) in tracked:
+            if isinstance(st, ast.Assign) and len(st.targets) == 1 and norm(st.value).endswith('trun.samples'):
+                env['#samples'] = tuple(env.get('#samples', ())) + (norm(st.targets[0]),)
+            if isinstance(st, ast.AnnAssign) and st.value is not None and norm(st.target) in tracked:
+                env[norm(st.target)] = _lin_eval(st.value, env)
+            elif isinstance(st, ast.Assign) and len(st.targets) == 1 and norm(st.targets[0]) in tracked:
                 env[norm(st.targets[0])] = _lin_eval(st.value, env)
             elif isinstance(st, ast.AugAssign) and norm(st.target) in tracked:
                 cur = env.get(norm(st.target))
@@ -288,24 +298,43 @@ def r06_4(rep: Report) -> None:
             branch = n
     if branch is None:
         raise AnalysisError("Representation.load: the `atom.atom_type == 'moof'` branch was not found")
-    tracked = {'segment_start_time', 'segment_end_time', 'dur', 'seg.duration'}
-    env0 = {'segment_end_time': {'E0': 1}, 'segment_start_time': {'S0': 1}, 'dur': None, 'seg.duration': None}
+    # roles by data flow, not by name: S is what receives the tfdt decode time, E what S is copied from
+    # when there is no tfdt
+    S = E = None
+    for n in ast.walk(branch):
+        if isinstance(n, ast.Assign) and len(n.targets) == 1 and isinstance(n.targets[0], ast.Name) \
+                and norm(n.value).endswith('base_media_decode_time'):
+            S = n.targets[0].id
+    if S is None:
+        raise AnalysisError('Representation.load: no variable receives the tfdt decode time')
+    for n in ast.walk(branch):
+        if isinstance(n, ast.Assign) and len(n.targets) == 1 and norm(n.targets[0]) == S \
+                and isinstance(n.value, ast.Name):
+            E = n.value.id
+    if E is None:
+        raise AnalysisError(f'Representation.load: `{S}` is never taken from a running end time')
+    names = {n.id for n in ast.walk(branch) if isinstance(n, ast.Name) and isinstance(n.ctx, ast.Store)}
+    tracked = names | {'seg.duration'}
+    env0 = {k: None for k in tracked}
+    env0[E] = {'E0': 1}
+    env0[S] = {'S0': 1}
     outs = _run_block(branch.body, [(env0, ())], tracked)
     seen = set()
     for env, path in outs:
-        tf = [truth for lab, truth in path if lab.replace(' ', '') in ('tfdtisNone',)]
-        tf2 = [not truth for lab, truth in path if lab.replace(' ', '') in ('tfdtisnotNone',)]
-        no_tfdt = (tf + tf2 or [None])[0]
-        if no_tfdt is None:
+        start, end_, sdur = env.get(S), env.get(E), env.get('seg.duration')
+        if start == {'T': 1}:
+            label = 'tfdt'
+        elif start is not None and 'E0' in start:
+            label = 'no tfdt'
+        else:
             continue
-        label = 'no tfdt' if no_tfdt else 'tfdt'
+        no_tfdt = label == 'no tfdt'
         if label in seen:
             continue
         seen.add(label)
         want_start = {'E0': 1} if no_tfdt else {'T': 1}
         want_end = {**want_start, 'D': 1}
-        start, end, sdur = env.get('segment_start_time'), env.get('segment_end_time'), env.get('seg.duration')
-        for what, got, want in (('start', start, want_start), ('end', end, want_end), ('duration', sdur, {'D': 1})):
+        for what, got, want in (('start', start, want_start), ('end', end_, want_end), ('duration', sdur, {'D': 1})):
             key = f'{label}: {what}'
             if got is None:
                 rep.note(f'R06.4: {key} has a form the evaluator does not follow - not decided')
